@@ -27,7 +27,7 @@ CHECKS = {
  "C04": dict(
   engine="c04_wfaults", category="fault_enumeration", design_ref="DESIGN.md §5.2",
   technique="deterministic simulation with fault injection: per sampled solver configuration, exhaustive enumeration of inner linear-solve failure points (iteration index x site) with reference-model oracles on every returned result",
-  text="For every sampled configuration (method x formulation x back-end x L1/mobility mode x Anderson x weights x grid x masses x tolerances) all fault points of the stated quantifier are visited: one run per inner-solve index k=1..n-1 and site (linear_solve entry, back-end solve, set-up), exception types rotating. Each returned result is checked for mass balance against an independent divergence model (tolerance from the measured linear residual), distance = cost of the returned flux, auxiliary outputs, status (converged only if criteria met and no inner failure), last-valid-iterate equality with the truncated fault-free run, and a bound on the number of solves; a fault-free call that raises (C04.X), a non-finite returned iterate (C04.N) and a handled failure followed by an escaping exception (C04.R) are violations. Complete over fault points within a configuration (three sampled points in the long-run profile); configurations are sampled. Four recorded known findings (K3-K5, known_findings.json) print KNOWN-FINDING lines.",
+  text="For every sampled configuration (method x formulation x back-end x L1/mobility mode x Anderson x weights x grid x masses x tolerances) all fault points of the stated quantifier are visited: one run per inner-solve index k=1..n-1 and site (linear_solve entry, back-end solve, set-up, inside pyamg's set-up, Anderson step, bookkeeping), exception types rotating. Each returned result is checked for mass balance against an independent divergence model (tolerance from the measured linear residual), distance = cost of the returned flux, auxiliary outputs, status (converged only if no inner failure and the criteria are met both on the library's history and on the trajectory recorded at the linear-solve seam), last-valid-iterate equality with the truncated fault-free run, and a bound on the number of solves; a fault-free call that raises (C04.X), a non-finite returned iterate (C04.N) and a handled failure followed by an escaping exception (C04.R) are violations. Complete over fault points within a configuration (three sampled points in the long-run profile); configurations are sampled. Four recorded known findings (K3-K5, known_findings.json) print KNOWN-FINDING lines.",
   note="Trusted: the library's quadrature table for the RT0 mode (exactness is C15's subject), numpy/scipy/pyamg; seam names linear_solve, setup_*_solver, linear_solver, _solve and module attributes time/tracemalloc of darsia.measure.wasserstein; a 'failure' is an Exception (BaseExceptions escape the handler by design and are only counted)."),
  "C16": dict(
   engine="c16_hidden_state", category="exploration", design_ref="DESIGN.md §5.3",
